@@ -39,6 +39,10 @@ pub struct AcceptCase {
     /// a candidate whose acceptance probability underflowed to 0 is still never accepted
     #[serde(default)]
     pub zero_rng: bool,
+    /// no generator is reachable while the component runs (hand-built state, or the generator is held by an enclosing
+    /// `holding`); only applied when the candidate is at least as good - that decision needs no draw
+    #[serde(default)]
+    pub no_rng: bool,
 }
 
 /// A generator backend whose every output word is zero.
@@ -73,7 +77,7 @@ impl Check for AcceptCheck {
         "C17/acceptance".into()
     }
     fn classes(&self) -> &'static [&'static str] {
-        &["0.01 < p < 0.99", "candidate better", "candidate equal", "p ~ 0 (never)", "p ~ 1 (always)", "same solution, different objective values", "every uniform draw is 0.0", "temperature cooled far below the component's start temperature"]
+        &["0.01 < p < 0.99", "candidate better", "candidate equal", "p ~ 0 (never)", "p ~ 1 (always)", "same solution, different objective values", "every uniform draw is 0.0", "temperature cooled far below the component's start temperature", "temperature exactly 0", "no generator reachable (candidate at least as good)"]
     }
     fn oracle(&self, c: &AcceptCase) -> Outcome {
         let mut cl = 0;
@@ -102,12 +106,22 @@ fn accept_oracle(c: &AcceptCase, cl: &mut u64) -> Result<u32, Failure> {
     }
     // one case in three: the component was constructed with a start temperature 2^60 times the temperature the decision is
     // made at (the temperature was cooled by another component in between): the rule uses the CURRENT temperature
-    let cooled = c.seed % 3 == 0 && t.is_finite() && t > 0.0 && (t * 1.152921504606847e18).is_finite();
-    let comp = ExponentialAnnealingAcceptance::new::<RealP>(if cooled { t * 1.152921504606847e18 } else { t });
-    if cooled {
+    // a temperature of exactly zero is reached by cooling (a cooling factor of 0 is accepted, and a long enough schedule
+    // underflows): the component started at temperature 1
+    let zero_t = t == 0.0;
+    if zero_t {
+        *cl |= 256;
+    }
+    let cooled = zero_t || (c.seed % 3 == 0 && t.is_finite() && t > 0.0 && (t * 1.152921504606847e18).is_finite());
+    let comp = ExponentialAnnealingAcceptance::new::<RealP>(if zero_t { 1.0 } else if cooled { t * 1.152921504606847e18 } else { t });
+    if cooled && !zero_t {
         *cl |= 128;
     }
-    let at = format!("f(current) = {fc:?}, f(candidate) = {fn_:?}, T = {t:?}{}", if cooled { " (start temperature 2^60 T)" } else { "" });
+    let no_rng = c.no_rng && delta <= 0.0;
+    if no_rng {
+        *cl |= 512;
+    }
+    let at = format!("f(current) = {fc:?}, f(candidate) = {fn_:?}, T = {t:?}{}{}", if zero_t { " (start temperature 1)" } else if cooled { " (start temperature 2^60 T)" } else { "" }, if no_rng { ", no generator in the state" } else { "" });
     let mut accepted = 0u32;
     for k in 0..c.n {
         let seed = c.seed.wrapping_add(k as u64 * 0x9E37_79B9);
@@ -128,6 +142,9 @@ fn accept_oracle(c: &AcceptCase, cl: &mut u64) -> Result<u32, Failure> {
             comp.init(&problem, &mut st)?;
             if cooled {
                 st.set_value::<Temperature>(t);
+            }
+            if no_rng {
+                let _ = st.take::<mahf::Random>();
             }
             comp.execute(&problem, &mut st)
         });
@@ -209,8 +226,8 @@ impl Check for MiscCheck {
         let (cl, r) = match c {
             MiscCase::Monotone { delta, t1, t2, n, seed } => (1, {
                 let mut dummy = 0;
-                let lo = accept_oracle(&AcceptCase { f_current: Fb::of(0.0), f_candidate: *delta, t: *t1, n: *n, seed: *seed, below: 0, same_solution: false, zero_rng: false }, &mut dummy);
-                let hi = accept_oracle(&AcceptCase { f_current: Fb::of(0.0), f_candidate: *delta, t: *t2, n: *n, seed: seed.wrapping_add(17), below: 0, same_solution: false, zero_rng: false }, &mut dummy);
+                let lo = accept_oracle(&AcceptCase { f_current: Fb::of(0.0), f_candidate: *delta, t: *t1, n: *n, seed: *seed, below: 0, same_solution: false, zero_rng: false, no_rng: false }, &mut dummy);
+                let hi = accept_oracle(&AcceptCase { f_current: Fb::of(0.0), f_candidate: *delta, t: *t2, n: *n, seed: seed.wrapping_add(17), below: 0, same_solution: false, zero_rng: false, no_rng: false }, &mut dummy);
                 match (lo, hi) {
                     (Ok(a), Ok(b)) => {
                         let band = 12.0 * (*n as f64 / 4.0).sqrt() + 2.0;
@@ -282,10 +299,10 @@ fn grid(n: u32, base: u64) -> Vec<AcceptCase> {
                 if (fc != 0.0) && (i + j) % 3 != 0 {
                     continue;
                 }
-                out.push(AcceptCase { f_current: Fb::of(fc), f_candidate: Fb::of(fc + d), t: Fb::of(*t), n, seed: base.wrapping_add((i * 31 + j) as u64), below, same_solution: (i + j) % 2 == 1, zero_rng: false });
+                out.push(AcceptCase { f_current: Fb::of(fc), f_candidate: Fb::of(fc + d), t: Fb::of(*t), n, seed: base.wrapping_add((i * 31 + j) as u64), below, same_solution: (i + j) % 2 == 1, zero_rng: false, no_rng: false });
                 if fc == 0.0 {
                     // the same cell with a generator whose every draw is 0.0
-                    out.push(AcceptCase { f_current: Fb::of(fc), f_candidate: Fb::of(fc + d), t: Fb::of(*t), n: 3, seed: base.wrapping_add((i * 31 + j) as u64), below, same_solution: false, zero_rng: true });
+                    out.push(AcceptCase { f_current: Fb::of(fc), f_candidate: Fb::of(fc + d), t: Fb::of(*t), n: 3, seed: base.wrapping_add((i * 31 + j) as u64), below, same_solution: false, zero_rng: true, no_rng: false });
                 }
             }
         }
@@ -294,8 +311,8 @@ fn grid(n: u32, base: u64) -> Vec<AcceptCase> {
     // is never accepted over a feasible current solution, a feasible candidate always replaces an infeasible one
     for (j, t) in ts.iter().enumerate() {
         for (fc, fnew) in [(f64::INFINITY, f64::INFINITY), (f64::INFINITY, 5.0), (5.0, f64::INFINITY)] {
-            out.push(AcceptCase { f_current: Fb::of(fc), f_candidate: Fb::of(fnew), t: Fb::of(*t), n: n.min(500), seed: base.wrapping_add(977 + j as u64), below: (j % 3) as u8, same_solution: j % 2 == 0, zero_rng: false });
-            out.push(AcceptCase { f_current: Fb::of(fc), f_candidate: Fb::of(fnew), t: Fb::of(*t), n: 3, seed: base.wrapping_add(977 + j as u64), below: 0, same_solution: false, zero_rng: true });
+            out.push(AcceptCase { f_current: Fb::of(fc), f_candidate: Fb::of(fnew), t: Fb::of(*t), n: n.min(500), seed: base.wrapping_add(977 + j as u64), below: (j % 3) as u8, same_solution: j % 2 == 0, zero_rng: false, no_rng: false });
+            out.push(AcceptCase { f_current: Fb::of(fc), f_candidate: Fb::of(fnew), t: Fb::of(*t), n: 3, seed: base.wrapping_add(977 + j as u64), below: 0, same_solution: false, zero_rng: true, no_rng: false });
         }
     }
     // huge objective values whose difference is a few representable steps, temperature of the order of the difference:
@@ -308,14 +325,28 @@ fn grid(n: u32, base: u64) -> Vec<AcceptCase> {
             }
             let delta = fnew - fc;
             for factor in [0.35, 0.7, 1.5, 3.0] {
-                out.push(AcceptCase { f_current: Fb::of(fc), f_candidate: Fb::of(fnew), t: Fb::of(delta * factor), n, seed: base ^ (steps as u64 * 131) ^ ((factor * 100.0) as u64), below: 0, same_solution: steps == 2, zero_rng: false });
+                out.push(AcceptCase { f_current: Fb::of(fc), f_candidate: Fb::of(fnew), t: Fb::of(delta * factor), n, seed: base ^ (steps as u64 * 131) ^ ((factor * 100.0) as u64), below: 0, same_solution: steps == 2, zero_rng: false, no_rng: false });
             }
+        }
+    }
+    // temperature exactly 0 (ties and better candidates still replace, worse ones never do), and decisions that need no
+    // draw made while no generator is reachable
+    for (j, d) in [-1.0, 0.0, 1e-300, 1.0, f64::INFINITY].into_iter().enumerate() {
+        for (fc, below) in [(0.0, 0u8), (7.5, 1), (f64::INFINITY, 0)] {
+            let fnew = if d == f64::INFINITY { f64::INFINITY } else if fc == f64::INFINITY && d <= 0.0 { if d < 0.0 { 3.0 } else { fc } } else { fc + d };
+            out.push(AcceptCase { f_current: Fb::of(fc), f_candidate: Fb::of(fnew), t: Fb::of(0.0), n: 5, seed: base.wrapping_add(4242 + j as u64), below, same_solution: j % 2 == 0, zero_rng: false, no_rng: false });
+            out.push(AcceptCase { f_current: Fb::of(fc), f_candidate: Fb::of(fnew), t: Fb::of(0.0), n: 3, seed: base.wrapping_add(4243 + j as u64), below, same_solution: false, zero_rng: true, no_rng: false });
+        }
+    }
+    for (j, t) in ts.iter().chain([0.0].iter()).enumerate() {
+        for d in [-2.0, 0.0] {
+            out.push(AcceptCase { f_current: Fb::of(1.0), f_candidate: Fb::of(1.0 + d), t: Fb::of(*t), n: 3, seed: base.wrapping_add(5000 + j as u64), below: (j % 3) as u8, same_solution: false, zero_rng: false, no_rng: true });
         }
     }
     // cells in the informative region 0.01 < p < 0.99
     for ratio in [0.02, 0.1, 0.3, 0.7, 1.0, 1.5, 2.5, 4.0] {
         for t in [0.01, 1.0, 250.0] {
-            out.push(AcceptCase { f_current: Fb::of(2.0), f_candidate: Fb::of(2.0 + ratio * t), t: Fb::of(t), n, seed: base ^ ((ratio * 1000.0) as u64), below: 0, same_solution: false, zero_rng: false });
+            out.push(AcceptCase { f_current: Fb::of(2.0), f_candidate: Fb::of(2.0 + ratio * t), t: Fb::of(t), n, seed: base ^ ((ratio * 1000.0) as u64), below: 0, same_solution: false, zero_rng: false, no_rng: false });
         }
     }
     out
@@ -337,7 +368,7 @@ pub fn run_all(ctx: &mut Ctx, replay: Option<&Path>) {
     ctx.exhaustive(&a, &format!("9 margins x 7 temperatures (+ shifted objective levels) + 21 cells with +inf objective values (tie / infeasible candidate / infeasible current) + 60 cells with huge objective levels 1-5 representable steps apart and T of the order of the difference + 24 cells with exp(-delta/T) in (0.01, 0.99), N = {n} seeds per cell"), grid(n, base).into_iter());
     ctx.random(
         &a,
-        (-50.0f64..50.0, prop_oneof![Just(0.0), -5.0f64..0.0, 0.0f64..8.0], prop_oneof![Just(1e-6), Just(0.5), Just(1.0), Just(3.0), 0.01f64..20.0], any::<u64>(), 0u8..3, any::<bool>()).prop_map(move |(fc, d, t, seed, below, same_solution)| AcceptCase { f_current: Fb::of(fc), f_candidate: Fb::of(fc + d), t: Fb::of(t), n: 600, seed, below, same_solution, zero_rng: false }),
+        (-50.0f64..50.0, prop_oneof![Just(0.0), -5.0f64..0.0, 0.0f64..8.0], prop_oneof![Just(0.0), Just(1e-6), Just(0.5), Just(1.0), Just(3.0), 0.01f64..20.0], any::<u64>(), 0u8..3, any::<bool>()).prop_map(move |(fc, d, t, seed, below, same_solution)| AcceptCase { f_current: Fb::of(fc), f_candidate: Fb::of(fc + d), t: Fb::of(t), n: 600, seed, below, same_solution, zero_rng: false, no_rng: seed % 4 == 1 }),
         ctx.tier.pick(800, 4000),
     );
     let mut misc = Vec::new();
